@@ -1378,6 +1378,11 @@ def run(ck: Check):
     import bqskit.compiler  # noqa: F401
     import bqskit.passes  # noqa: F401
     import harness.c09_pam  # noqa: F401
+    if not ck.replay_path:
+        # direct oracle for EmbedAllPermutationsPass (every stored permuted
+        # version implements P(pf)^T U P(pi)); in process, about a second
+        from harness import c09_embed
+        c09_embed.run_embed(ck)
     # ... and run one small case of each kind here, so that every lazy import and first-use
     # cache of bqskit/numpy is paid once, before the fork, and not under a case's time limit
     warm = [sp for sp in par if not sp.get('pam') and sp['n'] <= 3][:1] + \
